@@ -23,6 +23,8 @@ def run(rep, tier, seed):
     rt = lambda c: any(i in ("roundtrip", "canonical", "instant", "half-ms", "C11-lexical") for i, _ in c.ensures) or c.target.endswith(".unconvert")
     for m in ("contracts.types_basic", "contracts.types_decimal", "contracts.types_dt"):
         run_contracts(rep, m, tier, seed, select=rt, accept_props=["C09", "C10", "C11"])
+    # the library's own writer and pretty-printer (shaped trees, symbolic data, escaping interpreted from the library source)
+    run_contracts(rep, "contracts.writers", tier, seed)
     # end to end, and the body writers against the reference tokenizer (bounded)
     run_contracts(rep, "contracts.roundtrip_native", tier, seed)
     replay_known_findings(rep)
